@@ -80,7 +80,11 @@ Definition step_stored_ok (h : hstep) (o : step_obs) : bool :=
   | HOp c, OOk =>
       match oc_op c with
       | OpInstall fl _ _ m _ | OpUpgrade fl _ _ m _ =>
-          f_dry_run fl || forallb (stored_has_stamp (so_objs o)) m
+          (* a key named twice in one manifest is written twice; only the ownership values of the
+             first writer are then guaranteed (C07_updated_objects_owned), not its other labels *)
+          f_dry_run fl
+          || forallb (fun r => negb (Nat.eqb (List.length (filter (fun x => String.eqb (rkey x) (rkey r)) m)) 1)
+                               || stored_has_stamp (so_objs o) r) m
       | _ => true
       end
   | _, _ => true
